@@ -112,16 +112,24 @@ HttpEv ==
           /\ (IF ncuts > Budget THEN Flag("RETRY: another request although the configured retry count was exhausted")
               ELSE IF <<Ev.first, Ev.last>> # <<lastreq[1] + lastcut, lastreq[2]>> THEN Flag("RESUME: the retry does not resume at the first byte not yet received up to the end of the run")
               ELSE NoFlag)
-     ELSE LET cov == Covered(Ev.first, Ev.last) ids == {a[1] : a \in cov} IN
-          IF cov = {} \/ SumSizes(cov) # Ev.last - Ev.first + 1 THEN Flag("FETCH: HTTP range is not exactly a run of stored chunk ranges") /\ UNCHANGED <<fetched, lastreq, lastcut, ncuts>>
-          ELSE IF ids \cap FoundIds # {} THEN Flag("FETCH: a chunk found in the prior output or a seed was requested from the archive") /\ UNCHANGED <<fetched, lastreq, lastcut, ncuts>>
-          ELSE IF ids \cap fetched # {} THEN Flag("FETCH: chunk requested from the archive twice") /\ UNCHANGED <<fetched, lastreq, lastcut, ncuts>>
-          ELSE IF ~(ids \subseteq NeededIds) THEN Flag("FETCH: chunk that the source does not need was requested") /\ UNCHANGED <<fetched, lastreq, lastcut, ncuts>>
+     ELSE LET cov == Covered(Ev.first, Ev.last) ids == {a[1] : a \in cov}
+              \* C06's clause on this request ...
+              fr == IF cov = {} \/ SumSizes(cov) # Ev.last - Ev.first + 1 THEN "FETCH: HTTP range is not exactly a run of stored chunk ranges"
+                    ELSE IF ids \cap FoundIds # {} THEN "FETCH: a chunk found in the prior output or a seed was requested from the archive"
+                    ELSE IF ids \cap fetched # {} THEN "FETCH: chunk requested from the archive twice"
+                    ELSE IF ~(ids \subseteq NeededIds) THEN "FETCH: chunk that the source does not need was requested"
+                    ELSE "ok"
+              \* ... and C07's, judged independently (a request that repeats a chunk is, for C07, a request out of archive order: neither verdict hides the other)
+              mr == IF lastreq[2] + 1 = Ev.first THEN "MAXRUN: two requests for back-to-back stored chunks (the run was not requested as one range)"
+                    ELSE IF Ev.first <= lastreq[2] THEN "MAXRUN: chunk-data requests are not in archive order"
+                    ELSE "ok"
+              rules == (IF fr = "ok" THEN <<>> ELSE <<fr>>) \o (IF mr = "ok" THEN <<>> ELSE <<mr>>) IN
           \* a new run: the retry budget is per range request (bitar gives every HttpRangeRequest its own count), so the failures are counted per run
-          ELSE /\ fetched' = fetched \cup ids /\ lastreq' = <<Ev.first, Ev.last>> /\ lastcut' = Ev.cut /\ ncuts' = (IF Ev.cut >= 0 THEN 1 ELSE 0)
-               /\ (IF lastreq[2] + 1 = Ev.first THEN FlagSoft("MAXRUN: two requests for back-to-back stored chunks (the run was not requested as one range)")
-                   ELSE IF Ev.first <= lastreq[2] THEN FlagSoft("MAXRUN: chunk-data requests are not in archive order")
-                   ELSE NoFlag)
+          /\ fetched' = fetched \cup ids /\ lastreq' = <<Ev.first, Ev.last>> /\ lastcut' = Ev.cut /\ ncuts' = (IF Ev.cut >= 0 THEN 1 ELSE 0)
+          /\ verdicts' = IF nverdicts < MaxVerdicts THEN verdicts \o [i \in 1..Len(rules) |-> [scenario |-> sc.n, line |-> l, rule |-> rules[i], restart |-> "fault" \in DOMAIN sc]] ELSE verdicts
+          /\ nverdicts' = nverdicts + Len(rules)
+          \* a range that is not made of stored chunk ranges leaves nothing to follow; every other verdict lets the scenario go on
+          /\ skipping' = (skipping \/ (cov = {} \/ SumSizes(cov) # Ev.last - Ev.first + 1))
   /\ UNCHANGED <<sc, written, truncated, nok>>
 
 TruncEv ==
